@@ -3,7 +3,11 @@ Lemmas/FrontInclude.lean — helper lemmas for C19 (INCLUDE is textual inclusion
 `parseLines` and the local recursion of `expand` distribute over `++` (with "first failure wins"
 sequencing `oapp`), fuel monotonicity of `expand`, monotonicity in the chain of files being included
 (`expand_ok_mono`, `expand_self_chain`), non-divergence, the factorisation `assemble = front ; back`,
-missing file / cycle give `diag`, and a chain of nested files that exhausts the fuel (`expandOne_deep`).
+missing file / cycle give `diag`, and a chain of nested files that exhausts a given fuel (`expandOne_deep`).
+Batch 6: the fuel `includeFuel fs` of `assemble` is never exhausted (`chain_length_le`: pigeonhole on the chain of
+files being included; `expand_ne_internal_of_fuel`, `expand_includeFuel_ne_internal`, `expand_fuel_irrelevant`), hence
+`front_never_internal`, `front_include_eq` (textual inclusion without side conditions), `front_missing_full`,
+`front_self_include_full`.
 -/
 import CoCoVerif.Model.Program
 
@@ -261,6 +265,113 @@ theorem expand_mono_le {fs : Files} {n m : Nat} {inc : List Str} {ss : List Stmt
   | refl => rfl
   | step _ ih => rw [expand_mono fs _ inc ss (by rw [ih]; exact h), ih]
 
+/-! ### the fuel `includeFuel fs` suffices
+
+A file that is being included is rejected, so the chain of files being processed never holds a name twice; every name
+in it is a key of `fs`; hence the chain is never longer than `fs` (pigeonhole) and `fs.length + 1` levels are never
+exhausted. -/
+
+/-- pigeonhole: a duplicate-free list whose members all lie in `m` is no longer than `m` -/
+theorem nodup_subset_length_le {α} [BEq α] [LawfulBEq α] : ∀ (m l : List α), l.Nodup → (∀ x ∈ l, x ∈ m) →
+    l.length ≤ m.length := by
+  intro m
+  induction m with
+  | nil =>
+    intro l _ h
+    cases l with
+    | nil => simp
+    | cons x _ => exact absurd (h x (by simp)) (by simp)
+  | cons a m ih =>
+    intro l hn h
+    have h1 := ih (l.erase a) (hn.erase a) (by
+      intro x hx
+      rw [hn.mem_erase_iff] at hx
+      rcases List.mem_cons.1 (h x hx.2) with e | e
+      · exact absurd e hx.1
+      · exact e)
+    have h2 : l.length ≤ (l.erase a).length + 1 := by
+      rw [List.length_erase]; split <;> omega
+    simp only [List.length_cons]; omega
+
+theorem Files.get?_isSome_mem {fs : Files} {n : Str} (h : (fs.get? n).isSome = true) : n ∈ fs.map (·.1) := by
+  unfold Files.get? at h
+  rw [Option.isSome_map] at h
+  obtain ⟨x, hx⟩ := Option.isSome_iff_exists.1 h
+  have h1 := List.find?_some hx
+  have h2 := List.mem_of_find?_eq_some hx
+  simp only [beq_iff_eq] at h1
+  exact List.mem_map.2 ⟨x, h2, h1⟩
+
+/-- a duplicate-free chain of files that exist is no longer than the number of files -/
+theorem chain_length_le (fs : Files) (inc : List Str) (hn : inc.Nodup)
+    (hk : ∀ n ∈ inc, (fs.get? n).isSome = true) : inc.length ≤ fs.length := by
+  have := nodup_subset_length_le (fs.map (·.1)) inc hn (fun x hx => Files.get?_isSome_mem (hk x hx))
+  simpa using this
+
+/-- a file that exists: there is at least one file -/
+theorem Files.length_pos_of_get? {fs : Files} {n : Str} {ls : List Str} (h : fs.get? n = some ls) :
+    0 < fs.length := by
+  have := chain_length_le fs [n] (by simp) (by intro x hx; simp only [List.mem_singleton] at hx; subst hx; simp [h])
+  simp only [List.length_singleton] at this; omega
+
+/-- **the fuel suffices**: with a duplicate-free chain of existing files and `fs.length < fuel + chain length`,
+INCLUDE expansion does not run out of fuel -/
+theorem expand_ne_internal_of_fuel (fs : Files) : ∀ (fuel : Nat) (inc : List Str) (ss : List Stmt),
+    inc.Nodup → (∀ n ∈ inc, (fs.get? n).isSome = true) → fs.length < fuel + inc.length →
+    expand fs fuel inc ss ≠ .internal := by
+  intro fuel
+  induction fuel with
+  | zero =>
+    intro inc ss hn hk hl
+    have := chain_length_le fs inc hn hk
+    omega
+  | succ n ih =>
+    intro inc ss hn hk hl
+    rw [expand_succ]
+    induction ss with
+    | nil => simp [go_nil]
+    | cons s rest ihr =>
+      rw [go_cons]
+      have h1 : expandOne fs n inc s ≠ .internal := by
+        rcases expandOne_cases fs n inc s with ⟨_, h⟩ | ⟨_, _, h⟩ | ⟨_, hc, lines, p, hf, _, h⟩ <;> rw [h]
+        · simp
+        · simp
+        · refine ih _ p ?_ ?_ ?_
+          · rw [List.nodup_append]
+            refine ⟨hn, by simp, ?_⟩
+            intro a ha b hb e
+            simp only [List.mem_singleton] at hb
+            rw [← e] at hb
+            have : inc.contains s.operand.text = true := by rw [← hb]; simpa using ha
+            rw [this] at hc; cases hc
+          · intro x hx
+            simp only [List.mem_append, List.mem_singleton] at hx
+            rcases hx with hx | hx
+            · exact hk x hx
+            · subst hx; simp [hf]
+          · simp only [List.length_append, List.length_singleton]; omega
+      intro hc
+      cases hx : expandOne fs n inc s <;> cases hy : expand.go fs n inc rest <;> simp_all [oapp]
+
+/-- the nesting budget of `assemble` is never exhausted -/
+theorem expand_includeFuel_ne_internal (fs : Files) (ss : List Stmt) :
+    expand fs (includeFuel fs) [] ss ≠ .internal :=
+  expand_ne_internal_of_fuel fs _ [] ss (by simp) (by simp) (by simp [includeFuel])
+
+/-- ... so every larger budget gives the same result -/
+theorem expand_fuel_irrelevant (fs : Files) (m : Nat) (ss : List Stmt) (h : includeFuel fs ≤ m) :
+    expand fs m [] ss = expand fs (includeFuel fs) [] ss :=
+  expand_mono_le h (expand_includeFuel_ne_internal fs ss)
+
+/-- ... in general: every sufficient budget gives the same result -/
+theorem expand_fuel_irrelevant' (fs : Files) (n m : Nat) (inc : List Str) (ss : List Stmt)
+    (hn : inc.Nodup) (hk : ∀ x ∈ inc, (fs.get? x).isSome = true)
+    (h1 : fs.length < n + inc.length) (h2 : fs.length < m + inc.length) :
+    expand fs m inc ss = expand fs n inc ss := by
+  rcases Nat.le_total n m with h | h
+  · exact expand_mono_le h (expand_ne_internal_of_fuel fs n inc ss hn hk h1)
+  · exact (expand_mono_le h (expand_ne_internal_of_fuel fs m inc ss hn hk h2)).symm
+
 /-! ### the chain of files being included
 
 A longer chain can only turn results into `diag` (more INCLUDEs count as cycles); a shorter chain and
@@ -372,7 +483,7 @@ theorem expand_self_chain (fs : Files) (f : Str) (lf : List Str) (pf : List Stmt
 /-- parse and expand -/
 def front (fs : Files) (lines : List Str) : Outcome (List Stmt) :=
   match parseLines lines with
-  | .ok parsed => expand fs 64 [] parsed
+  | .ok parsed => expand fs (includeFuel fs) [] parsed
   | o => o
 
 /-- everything after INCLUDE expansion: a function of the expanded list only -/
@@ -425,7 +536,7 @@ theorem assemble_eq (fs : Files) (lines : List Str) :
       | .diverged => .diverged := by
   unfold assemble front back
   cases parseLines lines with
-  | ok p => cases expand fs 64 [] p <;> rfl
+  | ok p => cases expand fs (includeFuel fs) [] p <;> rfl
   | _ => rfl
 
 theorem assemble_congr {fs fs' : Files} {a b : List Str} (h : front fs a = front fs' b) :
@@ -454,13 +565,13 @@ theorem front_ok_of_assemble_ok {fs : Files} {a : List Str} {x : Assembly} (h : 
 theorem front_ne_diverged (fs : Files) (a : List Str) : front fs a ≠ .diverged := by
   unfold front
   rcases parseLines_ok_or_diag a with ⟨r, hr⟩ | hr <;> rw [hr]
-  · exact expand_ne_diverged fs 64 [] r
+  · exact expand_ne_diverged fs (includeFuel fs) [] r
   · simp
 
 /-- `front` of a program whose lines all parse -/
 theorem front_of_parsed {fs : Files} {a : List Str} {r : List Stmt} (h : parseLines a = .ok r) :
-    front fs a = expand.go fs 63 [] r := by
-  unfold front; rw [h]; exact expand_succ fs 63 [] r
+    front fs a = expand.go fs fs.length [] r := by
+  unfold front; rw [h]; exact expand_succ fs fs.length [] r
 
 /-- Replacing one INCLUDE line by the lines of the file, at the level of the parse-and-expand stage.
 Three cases: the two sides agree; or the INCLUDE side runs out of fuel (`internal`); or the INCLUDE
@@ -482,27 +593,27 @@ theorem front_include_cases {fs : Files} {pre post ls : List Str} {l : Str} {s :
   rcases parseLines_ok_or_diag pre with ⟨rp, hp⟩ | hp <;> rw [hp]
   · rcases parseLines_ok_or_diag post with ⟨rq, hq⟩ | hq <;> rw [hq]
     · simp only [oapp_ok_ok]
-      rw [show (64 : Nat) = 63 + 1 from rfl, expand_succ, go_append, go_append, go_single,
+      rw [show includeFuel fs = fs.length + 1 from rfl, expand_succ, go_append, go_append, go_single,
         expandOne_some hinc (by simp) hf]
-      have hA := go_ne_diverged fs 63 [] rp
+      have hA := go_ne_diverged fs fs.length [] rp
       rcases parseLines_ok_or_diag ls with ⟨inc, hi⟩ | hi <;> rw [hi]
       · simp only [oapp_ok_ok, expand_succ, go_append, List.nil_append]
-        rw [← expand_succ fs 63 [] inc]
-        show oapp (oapp _ (expand fs 63 [s.operand.text] inc)) _ = _ ∨ oapp (oapp _ (expand fs 63 _ inc)) _ = _ ∨
-          (oapp (oapp _ (expand fs 63 _ inc)) _ = _ ∧ _)
-        cases hx : expand fs 63 [s.operand.text] inc with
+        rw [← expand_succ fs fs.length [] inc]
+        show oapp (oapp _ (expand fs fs.length [s.operand.text] inc)) _ = _ ∨ oapp (oapp _ (expand fs fs.length _ inc)) _ = _ ∨
+          (oapp (oapp _ (expand fs fs.length _ inc)) _ = _ ∧ _)
+        cases hx : expand fs fs.length [s.operand.text] inc with
         | ok r =>
-          rw [expand_ok_mono fs 63 64 [s.operand.text] [] inc r (by omega) (by simp) hx]
+          rw [expand_ok_mono fs fs.length (fs.length + 1) [s.operand.text] [] inc r (by omega) (by simp) hx]
           exact .inl rfl
         | diag =>
-          have hy : ∀ r, expand fs 64 [] inc ≠ .ok r := fun r hr =>
-            expand_self_chain fs _ ls inc hf hi 64 [] r hr 63 [s.operand.text] (by simp) hx
-          have hy' := expand_ne_diverged fs 64 [] inc
-          cases hgo : expand.go fs 63 [] rp <;> cases hY : expand fs 64 [] inc <;>
-            cases hB : expand.go fs 63 [] rq <;> simp_all
-        | internal => cases hgo : expand.go fs 63 [] rp <;> simp_all
+          have hy : ∀ r, expand fs (fs.length + 1) [] inc ≠ .ok r := fun r hr =>
+            expand_self_chain fs _ ls inc hf hi (fs.length + 1) [] r hr fs.length [s.operand.text] (by simp) hx
+          have hy' := expand_ne_diverged fs (fs.length + 1) [] inc
+          cases hgo : expand.go fs fs.length [] rp <;> cases hY : expand fs (fs.length + 1) [] inc <;>
+            cases hB : expand.go fs fs.length [] rq <;> simp_all
+        | internal => cases hgo : expand.go fs fs.length [] rp <;> simp_all
         | diverged => exact absurd hx (expand_ne_diverged _ _ _ _)
-      · cases hgo : expand.go fs 63 [] rp <;> simp_all [Outcome.bind]
+      · cases hgo : expand.go fs fs.length [] rp <;> simp_all [Outcome.bind]
     · rcases parseLines_ok_or_diag ls with ⟨inc, hi⟩ | hi <;> rw [hi] <;> exact .inl rfl
   · exact .inl rfl
 
@@ -530,6 +641,22 @@ theorem front_include_ok {fs : Files} {pre post ls : List Str} {l : Str} {s : St
   · rw [← h, hok]
   · rw [hok] at h; cases h
   · rw [hok] at h; cases h
+
+/-- the parse-and-expand stage never ends in an internal error: the nesting budget `includeFuel fs` suffices -/
+theorem front_never_internal (fs : Files) (a : List Str) : front fs a ≠ .internal := by
+  unfold front
+  rcases parseLines_ok_or_diag a with ⟨r, hr⟩ | hr <;> rw [hr]
+  · exact expand_includeFuel_ne_internal fs r
+  · simp
+
+/-- **INCLUDE is textual inclusion at the level of the parse-and-expand stage, unconditionally**: the fuel cases of
+`front_include_cases` do not arise -/
+theorem front_include_eq {fs : Files} {pre post ls : List Str} {l : Str} {s : Stmt}
+    (hl : parseLine l = .ok (some s))
+    (hinc : (s.row.isInclude && !s.operand.text.isEmpty) = true)
+    (hf : fs.get? s.operand.text = some ls) :
+    front fs (pre ++ [l] ++ post) = front fs (pre ++ ls ++ post) :=
+  front_include hl hinc hf (front_never_internal fs _) (front_never_internal fs _)
 
 /-! ### missing file and include cycle -/
 
@@ -564,11 +691,51 @@ theorem front_missing {fs : Files} {pre post : List Str} {l : Str} {s : Stmt} {r
     (hinc : (s.row.isInclude && !s.operand.text.isEmpty) = true)
     (hf : fs.get? s.operand.text = none)
     (hp : parseLines pre = .ok rp) (hq : parseLines post = .ok rq)
-    (he : expand fs 64 [] rp = .ok e) :
+    (he : expand fs (includeFuel fs) [] rp = .ok e) :
     front fs (pre ++ [l] ++ post) = .diag := by
   unfold front
   rw [parseLines_around hl hp hq]
   exact expand_missing hinc hf (by rw [← expand_succ]; exact he)
+
+/-- an INCLUDE line whose statement is rejected at the top level (`expandOne … = .diag`) makes the whole program a
+diagnostic, whatever is before and after it: the lines before it end in a result or in a diagnostic, never in an
+exhausted nesting budget (`expand_includeFuel_ne_internal`) -/
+theorem front_diag_of_expandOne_diag {fs : Files} {pre post : List Str} {l : Str} {s : Stmt}
+    (hl : parseLine l = .ok (some s)) (hd : expandOne fs fs.length [] s = .diag) :
+    front fs (pre ++ [l] ++ post) = .diag := by
+  unfold front
+  rw [parseLines_append, parseLines_append, parseLines_single_some hl]
+  rcases parseLines_ok_or_diag pre with ⟨rp, hp⟩ | hp <;> rw [hp]
+  · rcases parseLines_ok_or_diag post with ⟨rq, hq⟩ | hq <;> rw [hq]
+    · simp only [oapp_ok_ok]
+      rw [show includeFuel fs = fs.length + 1 from rfl, expand_succ, go_append, go_append, go_single, hd]
+      have h1 : expand.go fs fs.length [] rp ≠ .internal := by
+        rw [← expand_succ]; exact expand_includeFuel_ne_internal fs rp
+      have h2 := go_ne_diverged fs fs.length [] rp
+      cases hgo : expand.go fs fs.length [] rp <;> simp_all
+    · rfl
+  · rfl
+
+/-- an INCLUDE of a file the host does not have is a diagnostic, whatever is before and after it -/
+theorem front_missing_full {fs : Files} {pre post : List Str} {l : Str} {s : Stmt}
+    (hl : parseLine l = .ok (some s))
+    (hinc : (s.row.isInclude && !s.operand.text.isEmpty) = true)
+    (hf : fs.get? s.operand.text = none) :
+    front fs (pre ++ [l] ++ post) = .diag :=
+  front_diag_of_expandOne_diag hl (expandOne_missing hinc hf)
+
+/-- a file whose only line includes the file itself is a diagnostic, whatever is before and after the INCLUDE -/
+theorem front_self_include_full {fs : Files} {pre post : List Str} {l : Str} {s : Stmt}
+    (hl : parseLine l = .ok (some s))
+    (hinc : (s.row.isInclude && !s.operand.text.isEmpty) = true)
+    (hf : fs.get? s.operand.text = some [l]) :
+    front fs (pre ++ [l] ++ post) = .diag := by
+  refine front_diag_of_expandOne_diag hl ?_
+  rw [expandOne_some hinc (by simp) hf, parseLines_single_some hl]
+  obtain ⟨k, hk⟩ : ∃ k, fs.length = k + 1 := ⟨fs.length - 1, by have := Files.length_pos_of_get? hf; omega⟩
+  rw [hk]
+  show expand fs (k + 1) _ [s] = _
+  rw [expand_succ, go_single, expandOne_cycle hinc (by simp)]
 
 /-- statements that are not INCLUDEs are copied -/
 theorem go_plain (fs : Files) (n : Nat) (inc : List Str) : ∀ (ss : List Stmt),
@@ -593,7 +760,9 @@ theorem front_single_include_plain {fs : Files} {ls : List Str} {l : Str} {s : S
     (hr : parseLines ls = .ok r) (hpl : ∀ x ∈ r, x.row.isInclude = false) :
     front fs [l] = .ok r := by
   rw [front_of_parsed (parseLines_single_some hl), go_single, expandOne_some hinc (by simp) hf, hr]
-  exact expand_plain fs 62 _ r hpl
+  obtain ⟨k, hk⟩ : ∃ k, fs.length = k + 1 := ⟨fs.length - 1, by have := Files.length_pos_of_get? hf; omega⟩
+  rw [hk]
+  exact expand_plain fs k _ r hpl
 
 /-- any program that reaches an `INCLUDE f`, where `f` contains an `INCLUDE f` line after lines
 without INCLUDE, ends in `diag` -/
@@ -605,12 +774,15 @@ theorem front_self_include {fs : Files} {pre post pre0 post0 : List Str} {l : St
     (hp : parseLines pre = .ok rp) (hnp : ∀ x ∈ rp, x.row.isInclude = false)
     (hq : parseLines post = .ok rq)
     (hp0 : parseLines pre0 = .ok rp0) (hq0 : parseLines post0 = .ok rq0)
-    (he : expand fs 64 [] rp0 = .ok e) :
+    (he : expand fs (includeFuel fs) [] rp0 = .ok e) :
     front fs (pre0 ++ [l] ++ post0) = .diag := by
   rw [front_of_parsed (parseLines_around hl hp0 hq0), go_append, go_append, go_single,
-    expandOne_some hinc (by simp) hf, parseLines_around hl hp hq, ← expand_succ, he]
-  show oapp (oapp _ (expand fs 63 _ _)) _ = _
-  rw [expand_cycle (n := 62) hinc (by simp) (go_plain fs 62 _ rp hnp)]; rfl
+    expandOne_some hinc (by simp) hf, parseLines_around hl hp hq, ← expand_succ,
+    show fs.length + 1 = includeFuel fs from rfl, he]
+  obtain ⟨k, hk⟩ : ∃ k, fs.length = k + 1 := ⟨fs.length - 1, by have := Files.length_pos_of_get? hf; omega⟩
+  rw [hk]
+  show oapp (oapp _ (expand fs (k + 1) _ _)) _ = _
+  rw [expand_cycle (n := k) hinc (by simp) (go_plain fs k _ rp hnp)]; rfl
 
 /-! ### a chain of nested files: the only way to `internal` in the expansion stage
 
